@@ -61,6 +61,51 @@ fn p_slot_vtable_entry() {
     kani::cover!(ok, "ok");
     kani::cover!(!ok && which == 2, "io err");
 }
+//@ prefix=p_marked kind=property clause=every method marked to use integer results (trait-level marker, alias marker, method-level marker, method-level alias marker inside a marked trait) really has an integer-coded vtable entry (returns i32), and methods opted out do not
+fn ret_is_i32<T>(_: &T) -> bool {
+    let n = core::any::type_name::<T>().as_bytes();
+    let l = n.len();
+    l > 6 && n[l - 6] == b'-' && n[l - 5] == b'>' && n[l - 4] == b' ' && n[l - 3] == b'i' && n[l - 2] == b'3' && n[l - 1] == b'2'
+}
+#[kani::proof]
+fn p_marked_entries_are_integer_coded() {
+    let mut calls = 0u32;
+    let i1 = any_imp(&mut calls);
+    let o = trait_obj!(i1 as WithInt);
+    let vt = o.get_vtbl();
+    assert!(ret_is_i32(&vt.payload()) && ret_is_i32(&vt.empty()) && ret_is_i32(&vt.io()), "C13 methods of a trait marked #[int_result] have integer-coded entries");
+    assert!(!ret_is_i32(&vt.plain()), "C13 a method marked #[no_int_result] keeps its Result");
+    core::mem::forget(o);
+    let i2 = any_imp(&mut calls);
+    let o = trait_obj!(i2 as WithAlias);
+    let vt = o.get_vtbl();
+    assert!(ret_is_i32(&vt.aliased()) && !ret_is_i32(&vt.aliased_plain()), "C13 alias marker: integer-coded unless opted out");
+    core::mem::forget(o);
+    let i3 = any_imp(&mut calls);
+    let o = trait_obj!(i3 as PerMethod);
+    let vt = o.get_vtbl();
+    assert!(ret_is_i32(&vt.marked()) && !ret_is_i32(&vt.unmarked()), "C13 method-level marker: only the marked method is integer-coded");
+    core::mem::forget(o);
+    let i4 = any_imp(&mut calls);
+    let o = trait_obj!(i4 as Mixed);
+    let vt = o.get_vtbl();
+    assert!(ret_is_i32(&vt.plain_marked()), "C13 trait-level marker applies to plain Result methods");
+    assert!(ret_is_i32(&vt.alias_marked()), "C13 a method-level alias marker inside a marked trait still yields an integer-coded entry");
+    core::mem::forget(o);
+    kani::cover!(true, "end");
+}
+#[kani::proof]
+fn p_marked_mixed_same_result() {
+    let mut calls = 0u32;
+    let imp = any_imp(&mut calls);
+    let (ok, val, code) = (imp.ok, imp.val, imp.code);
+    let a: u64 = kani::any();
+    let which: bool = kani::any();
+    let o = trait_obj!(imp as Mixed);
+    let got = if which { o.plain_marked(a) } else { o.alias_marked(a) }.map_err(|e| e.0.get());
+    assert!(got == if ok { Ok(val ^ a) } else { Err(code) }, "C13 the object call returns the same Result as the direct call");
+    assert!(calls == 1);
+}
 //@ prefix=canary kind=canary clause=vacuity canary
 #[kani::proof]
 fn canary_c13_e2e() {
